@@ -138,16 +138,31 @@ STREAMS = {"run": run_stream}
 
 CTL_FILES = ["theories/Ctl.vo", "theories/CtlProofs.vo"]
 
-PROPS = {
-    "C03": {
-        "propfile": "theories/Properties/C03.v",
-        "coq_targets": ["theories/Properties/C03.vo"],
+def _run_prop(propfile_id, streams, extra_assumptions=None, tested=None):
+    return {
+        "propfile": "theories/Properties/%s.v" % propfile_id,
+        "coq_targets": ["theories/Properties/%s.vo" % propfile_id],
         "checkers": ["RunCheck"],
-        "streams": [{"kind": "run", "name": "mixed", "profile": "mixed", "count": {"quick": 320, "thorough": 4000}, "salt": 3}],
+        "streams": streams,
         "assumptions": [
-            "the controller is modelled at the granularity of one select-loop turn (Ctl.step); labels = what the environment can do",
-            "started = the controller created the evaluation (allocated its seed); the objective function may see the call later in the same poll",
-        ],
-        "tested_not_proved": ["that the Rust controller refines Ctl.step: differential testing through the run stream"],
-    },
+            "the controller is modelled at the granularity of one select-loop turn (Ctl.step); labels = what the environment can do; randomness = oracle stream",
+            "created/started = the controller created the evaluation (allocated its seed); the objective function sees the call later in the same poll",
+        ] + (extra_assumptions or []),
+        "tested_not_proved": ["that the Rust controller refines Ctl.step: differential testing through the run stream"] + (tested or []),
+    }
+
+
+PROPS = {
+    "C02": _run_prop("C02", [{"kind": "run", "name": "mixed", "profile": "mixed", "count": {"quick": 320, "thorough": 4000}, "salt": 2}],
+                     ["best_is_min_ss1 is stated for any total preorder on objective values with mean [x] ~ x; that FiniteF64::cmp and the f64 mean satisfy this is exercised by the acceptor (Flocq Bcompare / Bplus / Bdiv under vm_compute), not proved"]),
+    "C03": _run_prop("C03", [{"kind": "run", "name": "mixed", "profile": "mixed", "count": {"quick": 320, "thorough": 4000}, "salt": 3}]),
+    "C04": _run_prop("C04", [{"kind": "run", "name": "stop", "profile": "stop", "count": {"quick": 320, "thorough": 4000}, "salt": 4}],
+                     ["'delivered' = taken up by the controller's select loop (the abort turn); a request sent while completions are queued may be taken up after some of them (DESIGN 3, C04)"]),
+    "C05": _run_prop("C05", [{"kind": "run", "name": "mixed", "profile": "mixed", "count": {"quick": 320, "thorough": 4000}, "salt": 5}],
+                     None, ["threaded in-process path and child-process path: thread-pool size is a tested fact"]),
+    "C06": _run_prop("C06", [{"kind": "run", "name": "fail", "profile": "fail", "count": {"quick": 320, "thorough": 4000}, "salt": 6}]),
+    "C08": _run_prop("C08", [{"kind": "run", "name": "reeval", "profile": "reeval", "count": {"quick": 160, "thorough": 2000}, "salt": 8},
+                             {"kind": "run", "name": "mixed", "profile": "short", "count": {"quick": 160, "thorough": 2000}, "salt": 88}]),
+    "C14": _run_prop("C14", [{"kind": "run", "name": "mixed", "profile": "mixed", "count": {"quick": 320, "thorough": 4000}, "salt": 14}],
+                     None, ["best-seen file and CSV rows (Writer) are not modelled yet", "probabilities in [0,1] / positive finite scale of meta parameters: monitored on every report item, theorem pending (operator layer)"]),
 }
